@@ -20,7 +20,7 @@ for v in d['unknown']:
     g.setdefault(k, []).append(v)
 for k, vs in g.items():
     print('\n==', k, len(vs)); v = vs[0]; print('  ', v['msg'][:700])
-    w = dict(v.get('witness') or {}); w.pop('source', None); w.pop('las', None)
+    w = dict(v.get('witness') or {}); w.pop('source', None); w.pop('las', None); w.pop('passes', None); w.pop('layout', None)
     print('   witness:', json.dumps(w, default=repr)[:900])
     if 'traceback' in v: print(v['traceback'][-800:])
 import shutil; shutil.rmtree(tmp, ignore_errors=True)
